@@ -206,13 +206,15 @@ def _ratnorm_pass(c, hyps, timeout_ms, t0):
 
 
 class Verdict:
-    __slots__ = ("status", "model", "time", "solver")
+    __slots__ = ("status", "model", "time", "solver", "alt_model", "tiny")
 
     def __init__(self, status, model=None, t=0.0, solver="z3"):
         self.status = status
         self.model = model
         self.time = t
         self.solver = solver
+        self.alt_model = None   # the solver's first model when `model` is the float-visible one
+        self.tiny = False       # at the solver's first model both sides differ by <= 1e-9 (1 + |b|): rounding-level (S7)
 
 
 CROSS = {"every": 0, "count": 0, "done": 0, "agree": 0, "disagree": 0, "cvc5_unknown": 0, "log": []}
@@ -298,7 +300,21 @@ def valid(claim, pc=(), assumptions=(), timeout_ms=20000, want_model=True, weak_
         v = Verdict("unsat", None, dt)
     elif r == z3.sat:
         STATS.queries["sat"] += 1
-        v = Verdict("sat", s.model() if want_model else None, dt)
+        m = s.model() if want_model else None
+        vis = _visible_model(s, c) if want_model else None
+        if vis is not None and vis[0] == "unsat":
+            # exact equality fails, equality within 1e-7 relative holds for ALL points: rounding-level (S7)
+            STATS.queries["sat"] -= 1
+            STATS.queries["unsat"] += 1
+            ROUNDING["level"] += 1
+            return Verdict("unsat", None, time.perf_counter() - t0, "z3/rounding-level")
+        m0 = m
+        if vis is not None:
+            m = vis[1]
+        v = Verdict("sat", m, dt)
+        if want_model and m0 is not None:
+            v.alt_model = m0 if m is not m0 else None
+            v.tiny = _tiny_difference(m0, c)
     else:
         # second opinion before giving up
         res = _cvc5_check(s.to_smt2().replace("(check-sat)", ""), max(5, timeout_ms // 1000))
@@ -326,6 +342,56 @@ def valid(claim, pc=(), assumptions=(), timeout_ms=20000, want_model=True, weak_
                 CROSS["disagree"] += 1
                 CROSS["log"].append(s.to_smt2()[:2000])
     return v
+
+
+ROUNDING = {"level": 0}
+
+
+def _visible_model(s, claim):
+    """For a claim that is a conjunction of equalities a_i == b_i whose exact form is refuted: is there a
+    counterexample that survives float tolerances, |a_i - b_i| > 1e-7 (1 + |b_i|) for some i?
+      ("sat", model)   yes: that model is reported (a replay can see it)
+      ("unsat", None)  no: the two sides differ by rounding-level amounts only (the code folded constants in
+                       floating point, e.g. Constant(1/3.0)); rounding is outside the model (S7)
+      None             not decided / not a conjunction of equalities: the plain model is kept"""
+    try:
+        from . import ratnorm
+        pairs = ratnorm.split_equalities(claim)
+        if not pairs:
+            return None
+        absd = lambda t: z3.If(t >= 0, t, -t)  # noqa: E731
+        s.push()
+        s.set("timeout", 3000)
+        s.add(z3.Or([absd(a - b) > z3.RealVal("1/10000000") * (1 + absd(b)) for a, b in pairs]))
+        r = s.check()
+        m = s.model() if r == z3.sat else None
+        s.pop()
+        if r == z3.sat:
+            return ("sat", m)
+        if r == z3.unsat:
+            return ("unsat", None)
+        return None
+    except Exception:  # noqa: BLE001
+        return None
+
+
+def _tiny_difference(model, claim):
+    """exact difference of both sides of every equality at the model point <= 1e-9 (1 + |b|)?"""
+    try:
+        from . import ratnorm
+        pairs = ratnorm.split_equalities(claim)
+        if not pairs:
+            return False
+        for a, b in pairs:
+            va = model.eval(a, model_completion=True)
+            vb = model.eval(b, model_completion=True)
+            fa = Fraction(va.numerator_as_long(), va.denominator_as_long())
+            fb = Fraction(vb.numerator_as_long(), vb.denominator_as_long())
+            if abs(fa - fb) > Fraction(1, 10 ** 9) * (1 + abs(fb)):
+                return False
+        return True
+    except Exception:  # noqa: BLE001
+        return False
 
 
 def model_values(model, names):
